@@ -545,7 +545,13 @@ class Interp(object):
         return outcomes
 
     def decide(self, text, alternatives, subject=None):
-        """An undetermined choice point (``subject``: the abstract value the decision is about, if any)."""
+        """An undetermined choice point (``subject``: the abstract value the decision is about, if any).
+        A subject that was already decided on this trace keeps its decision (traces are consistent)."""
+        if subject is not None and isinstance(subject, V):
+            sk = k(subject)
+            for (t0, alt0, s0) in self.state.notes:
+                if isinstance(s0, V) and k(s0) == sk and t0.split('(')[0] == text.split('(')[0]:
+                    return alt0
         if self._dpos < len(self._decisions):
             t, alt = self._decisions[self._dpos]
             self._dpos += 1
